@@ -22,22 +22,23 @@ type OShape struct {
 	VOff   uintptr // offset of v in G
 	VSize  uintptr
 	VAlign uintptr
-	Z      unsafe.Pointer         // &g.v
-	Cells  [][2]uintptr           // compiler extent {offset in v, size} of every cell stored in the struct itself; {^0, 0} otherwise
-	Ents   [][2]uintptr           // compiler extent of every listing entry stored by value; {^0, 0} otherwise
-	Set    func(c, k int)         // cell c := value k, written with ordinary selectors
-	Snap   func(c int) int        // value index of cell c, read with ordinary selectors (-1 = none of the known values)
-	Args   func() []any           // things that are not *T
-	Reqs   map[int]*OReq          // compiled requests, by (1-based) index into TLC's request list
+	Z      unsafe.Pointer  // &g.v
+	Cells  [][2]uintptr    // compiler extent {offset in v, size} of every cell stored in the struct itself; {^0, 0} otherwise
+	Ents   [][2]uintptr    // compiler extent of every listing entry stored by value; {^0, 0} otherwise
+	Set    func(c, k int)  // cell c := value k, written with ordinary selectors
+	Snap   func(c int) int // value index of cell c, read with ordinary selectors (-1 = none of the known values)
+	Args   func() []any    // things that are not *T
+	Reqs   map[int]*OReq   // compiled requests, by (1-based) index into TLC's request list
+	Reqs2  map[int]*OReq   // some of them once more, through the other API (ForProductN <-> ForSpectrumN)
 }
 
 // OReq is one compiled derivation: ForProductN / ForSpectrumN instantiated on the generated types.
 type OReq struct {
-	API    string              // "product" | "spectrum"
-	Derive func()              // may panic; keeps the optics in variables of the generated closure
-	Put    []func(k int) bool  // component i: Put / Putt value k into the struct; true when the same pointer came back
-	Get    []func() []int      // component i: Get / Gett, decoded to value indices (cells of the focus stored by value, in order)
-	RT     []func() bool       // component i: Put(s, Get(s))
+	API    string               // "product" | "spectrum"
+	Derive func()               // may panic; keeps the optics in variables of the generated closure
+	Put    []func(k int) bool   // component i: Put / Putt value k into the struct; true when the same pointer came back
+	Get    []func() []int       // component i: Get / Gett, decoded to value indices (cells of the focus stored by value, in order)
+	RT     []func() bool        // component i: Put(s, Get(s))
 	PutAny []func(a any, k int) // spectrum only: Putt(a, value k)
 	GetAny []func(a any)        // spectrum only: Gett(a)
 }
@@ -59,12 +60,12 @@ type oAlt struct {
 }
 
 type oWant struct {
-	Out  string    `json:"out"`
-	Why  string    `json:"why"`
-	Ents []int     `json:"ents"`
-	Foci [][2]int  `json:"foci"`
-	Ext  [][2]int  `json:"ext"`
-	Alt  [][]oAlt  `json:"alt"`
+	Out  string   `json:"out"`
+	Why  string   `json:"why"`
+	Ents []int    `json:"ents"`
+	Foci [][2]int `json:"foci"`
+	Ext  [][2]int `json:"ext"`
+	Alt  [][]oAlt `json:"alt"`
 }
 
 type oReq struct {
@@ -203,14 +204,25 @@ func (o *orun) run() {
 		}
 	}
 	o.clean = o.image()
-	idx := make([]int, 0, len(s.Reqs))
-	for i := range s.Reqs {
-		idx = append(idx, i)
+	type compiled struct {
+		ri int
+		q  *OReq
 	}
-	sort.Ints(idx)
+	var todo []compiled
+	for _, m := range []map[int]*OReq{s.Reqs, s.Reqs2} {
+		idx := make([]int, 0, len(m))
+		for i := range m {
+			idx = append(idx, i)
+		}
+		sort.Ints(idx)
+		for _, i := range idx {
+			todo = append(todo, compiled{i, m[i]})
+		}
+	}
 	derived := map[int]bool{}
-	for _, ri := range idx {
-		q, e := s.Reqs[ri], &c.Reqs[ri-1]
+	for n, cq := range todo {
+		ri, q, e := cq.ri, cq.q, &c.Reqs[cq.ri-1]
+		second := n >= len(s.Reqs)
 		p, msg := try(q.Derive)
 		o.r.stats["derivations"]++
 		o.r.stats["derive-"+e.Want.Out]++
@@ -237,7 +249,9 @@ func (o *orun) run() {
 				}
 				continue
 			}
-			derived[ri] = true
+			if !second {
+				derived[ri] = true
+			}
 			seen := map[int]bool{}
 			for i := range e.Want.Foci {
 				o.lens(ri, q, e, i, o.prop == "C01" && !seen[e.Want.Ents[i]])
